@@ -7,6 +7,7 @@ proofs/BoxTie.v stops compiling.  Further typed facts: the layout of the id pack
 instances and for classes, how the proxy cache is consulted, obtain / deliver being pickle round trips.
 Everything else the property depends on is kept as a shape snapshot."""
 from .core import *
+from .core import _Inert
 
 SRC = "rpyc/core/protocol.py"
 SRC_CONSTS = "rpyc/core/consts.py"
@@ -144,6 +145,36 @@ def ladders_sx(repo):
     return bl, ul
 
 
+FACTORY_HEAD = ["cls = None",
+                "if id_pack[2] == 0 and id_pack in self._netref_classes_cache:\n    cls = self._netref_classes_cache[id_pack]\n"
+                "elif id_pack[0] in netref.builtin_classes_cache:\n    cls = netref.builtin_classes_cache[id_pack[0]]"]
+FACTORY_INSPECT = "cls_methods = self.sync_request(consts.HANDLE_INSPECT, id_pack)"
+FACTORY_RECHECK = ["proxy = self._proxy_cache.get(id_pack)",
+                   "if proxy is not None:\n    proxy.____refcount__ += 1\n    return proxy"]
+FACTORY_TAIL = ["cls = netref.class_factory(id_pack, cls_methods)",
+                "if id_pack[2] == 0:\n    self._netref_classes_cache[id_pack] = cls"]
+
+
+def factory_rechecks(repo):
+    """_netref_factory, statement by statement.  Asking the owner for the class (HANDLE_INSPECT) serves other messages
+    while it waits; the only accepted difference between trees is whether the proxy cache is looked at again afterwards
+    (the arrival then joins the proxy made in the meantime, with its count) -> bool"""
+    fn = find_func(find_class(parse(repo, SRC), "Connection"), "_netref_factory")
+    if [a.arg for a in fn.args.args] != ["self", "id_pack"]:
+        raise Unrecognised("_netref_factory: signature")
+    body = [x for x in _Inert().visit(ast.parse(ast.unparse(fn)).body[0]).body]
+    txt = [_u(x) for x in body]
+    if not (len(txt) == 4 and txt[:2] == FACTORY_HEAD and txt[3] == "return cls(self, id_pack)" and isinstance(body[2], ast.If)
+            and _u(body[2].test) == "cls is None" and not body[2].orelse):
+        raise Unrecognised("_netref_factory: body")
+    inner = [_u(x) for x in body[2].body]
+    if inner == [FACTORY_INSPECT] + FACTORY_TAIL:
+        return False
+    if inner == [FACTORY_INSPECT] + FACTORY_RECHECK + FACTORY_TAIL:
+        return True
+    raise Unrecognised("_netref_factory: class lookup: " + " / ".join(inner))
+
+
 def _id_pack_facts(repo):
     fn = find_func(parse(repo, SRC_LIB), "get_id_pack")
     body = strip_doc(fn.body)
@@ -230,6 +261,10 @@ def translate(repo):
         return typed("unbox_ladder", "uladder", coq_list("(%s, %s)" % (coq_z(l), a) for l, a in unbox_ladder(repo)))
     guarded("unbox_ladder", t_unbox)
 
+    def t_factory():
+        return typed("factory_rechecks_cache_after_inspect", "bool", coq_bool(factory_rechecks(repo)))
+    guarded("netref_factory", t_factory)
+
     def t_idpack():
         f = _id_pack_facts(repo)
         return [typed("id_pack_instance", "list string", coq_list(coq_string(x) for x in f["instance"])),
@@ -275,7 +310,7 @@ def translate(repo):
     def shapes():
         conn = find_class(parse(repo, SRC), "Connection")
         out = []
-        for nm in ("_box", "_unbox", "_netref_factory", "_handle_pickle"):
+        for nm in ("_box", "_unbox", "_handle_pickle"):     # _netref_factory: translated (factory_rechecks), two forms accepted
             out.append(shape("Connection." + nm, func_shape(find_func(conn, nm))))
         tree = parse(repo, SRC_CLASSIC)
         for nm in ("obtain", "deliver"):
